@@ -289,6 +289,8 @@ def sample_evaluator(ctx, root: FuncInfo, extra_env: dict | None = None):
     from ..concrete import PathEval, PState, _Unknown
     extra_env = extra_env or {}
 
+    from ..concrete import ModuleValues
+
     def consts_of(f_):
         out_ = {}
         for nm in {x.id for x in ast.walk(f_.node) if isinstance(x, ast.Name)}:
@@ -297,6 +299,17 @@ def sample_evaluator(ctx, root: FuncInfo, extra_env: dict | None = None):
             v = try_const(ctx, f_, ast.Name(nm, ast.Load()), default=None)
             if v is not None:
                 out_.setdefault(nm, v)
+                continue
+            r_ = ctx.repo.resolve(f_.module, nm)
+            if r_ and r_[0] == "mod":
+                vals = {}
+                for cn in r_[1].assigns:
+                    try:
+                        vals[cn] = ctx.repo.const(r_[1], cn)
+                    except Exception as ex:
+                        if isinstance(ex, (NameError, UnboundLocalError)):
+                            raise
+                out_.setdefault(nm, ModuleValues(vals))
         return out_
     funcs = [root] + [ctx.cg.funcs[q] for q in ctx.cg.closure([root.fq]) if q in ctx.cg.funcs]
     mods = {f.module.name: f.module for f in funcs}
@@ -307,6 +320,70 @@ def sample_evaluator(ctx, root: FuncInfo, extra_env: dict | None = None):
     calls.update(record_methods(ctx, consts_of, *mods.values()))
     pe = PathEval(calls)
     pe.record_classes = record_classes(ctx, *mods.values())
+    # record classes with a __str__ of their own: a subclass of the rebuilt tuple whose __str__ follows the repository's
+    from ..concrete import PState as _PS, record_class_of as _rco
+    for m_ in mods.values():
+        for ci in m_.classes.values():
+            if ci.name in pe.record_classes or "__str__" not in ci.methods:
+                continue
+            base_ = _rco(ci.node, allow_str=True)
+            if base_ is None:
+                continue
+            key_ = f"{ci.name}.__str__"
+            calls[key_] = (ci.methods["__str__"].node, consts_of(ci.methods["__str__"]))
+
+            def _make(base__, key__):
+                class _R(base__):
+                    __slots__ = ()
+
+                    def __str__(self):
+                        return pe.call(key__, [self], _PS({}))
+
+                    def __format__(self, spec):
+                        return format(str(self), spec)
+                _R.__name__ = base__.__name__
+                return _R
+            pe.record_classes[ci.name] = _make(base_, key_)
+    for m_ in mods.values():
+        for ci in m_.classes.values():
+            if ci.name in pe.record_classes:
+                for name, fi_ in ci.methods.items():
+                    if not (name.startswith("__") and name.endswith("__")):
+                        calls.setdefault(f"{ci.name}.{name}", (fi_.node, consts_of(fi_)))
+    # plain classes (and dataclasses) of those modules: objects with attributes, methods followed like functions
+    from ..concrete import _NO_DEFAULT, record_class_of
+    for m_ in mods.values():
+        for ci in m_.classes.values():
+            if record_class_of(ci.node) is not None:
+                continue
+            bases = [norm(b) for b in ci.node.bases]
+            if any(b not in ("object",) for b in bases):
+                continue            # inherits from something that is not followed
+            is_dc = any("dataclass" in norm(d) for d in ci.node.decorator_list)
+            fields, class_attrs = ([] if is_dc else None), {}
+            ok = True
+            for st in ci.node.body:
+                if isinstance(st, ast.AnnAssign) and isinstance(st.target, ast.Name) and is_dc:
+                    if st.value is None:
+                        fields.append((st.target.id, _NO_DEFAULT))
+                    elif isinstance(st.value, ast.Constant):
+                        fields.append((st.target.id, st.value.value))
+                    elif isinstance(st.value, ast.Call) and norm(st.value.func).endswith("field") and kwarg(st.value, "default_factory") is not None \
+                            and norm(kwarg(st.value, "default_factory")) in ("list", "dict", "set"):
+                        fields.append((st.target.id, {"list": list, "dict": dict, "set": set}[norm(kwarg(st.value, "default_factory"))]))
+                    else:
+                        ok = False
+                elif isinstance(st, (ast.Assign, ast.AnnAssign)) and not is_dc:
+                    tg = st.targets[0] if isinstance(st, ast.Assign) else st.target
+                    if isinstance(tg, ast.Name) and st.value is not None:
+                        v_ = try_const(ctx, next(iter(ci.methods.values())) if ci.methods else root, st.value, default=None)
+                        if v_ is not None:
+                            class_attrs[tg.id] = v_
+            if not ok:
+                continue
+            pe.instance_classes[ci.name] = {"fields": fields, "class_attrs": class_attrs}
+            for name, fi_ in ci.methods.items():
+                calls[f"{ci.name}.{name}"] = (fi_.node, consts_of(fi_))
 
     def known(v_):
         if isinstance(v_, _Unknown):
@@ -317,6 +394,9 @@ def sample_evaluator(ctx, root: FuncInfo, extra_env: dict | None = None):
             return all(known(x_) for x_ in v_.values())
         return True
     root_env = consts_of(root)
+    for key_, (node_, env_) in calls.items():
+        for k_, v_ in extra_env.items():
+            env_.setdefault(k_, v_)
     for g in funcs:
         env_g = root_env if g is root else calls.get(g.name, (None, None))[1]
         if env_g is None:
